@@ -17,8 +17,11 @@ pub mod iospec {
 }
 //# section: xml
 pub mod xml {
-    pub mod attribute { use vstd::prelude::*; #[verifier::external_body] pub struct OwnedAttribute { _p: () } }
-    pub mod namespace { use vstd::prelude::*; #[verifier::external_body] pub struct Namespace { _p: () } }
+    pub mod attribute { use vstd::prelude::*; #[verifier::external_body] pub struct OwnedAttribute { _p: () }
+        impl Clone for OwnedAttribute { #[verifier::external_body] fn clone(&self) -> (r: Self) ensures r == *self { unimplemented!() } } }
+    pub mod namespace { use vstd::prelude::*; #[verifier::external_body] pub struct Namespace { _p: () }
+        impl Clone for Namespace { #[verifier::external_body] fn clone(&self) -> (r: Self) ensures r == *self { unimplemented!() } }
+        impl Namespace { #[verifier::external_body] pub fn empty() -> Namespace { unimplemented!() } } }
 }
 //# section: yaserde-begin
 pub mod yaserde {
